@@ -6,7 +6,8 @@
     (sqlx.CheckChangesScope), Qual/RefSkeleton.v (statement forms of the MySQL and
     PostgreSQL planners).  *)
 From Coq Require Import List NArith ZArith Bool.
-From Atlas Require Import Base.Bytes Qual.Builder Qual.BuilderProofs Qual.Scope Qual.ScopeProofs.
+From Atlas Require Import Base.Bytes Qual.Builder Qual.BuilderProofs Qual.Scope Qual.ScopeProofs
+  Qual.RefSkeleton Qual.RefSkeletonProofs.
 Import ListNotations.
 Open Scope N_scope.
 
@@ -88,6 +89,36 @@ Theorem C16_builder_pg :
   schemaPrefix quoteGo None ns = schemaPrefix quoteGo (Some (VName ns)) None.
 Proof. exact pg_ident_cases. Qed.
 
+(** * 2. The planners' statement forms (reference skeleton)
+
+    Full statement: for EVERY change set the MySQL / PostgreSQL planners accept, every
+    table, type, sequence and index reference of every planned statement and of every
+    reverse statement is written through a qualifying call, hence (1a-1f) without a schema
+    component under qualifier [""], with exactly [q] under [q], with the object's own schema
+    otherwise; and no schema-level statement is planned.
+
+    PARTIAL: it is proved of [plan_skel], a hand abstraction of the two planners (which
+    references each statement form writes, through which call; fragment listed in
+    Qual/RefSkeleton.v).  That [plan_skel] agrees with the Go planners is the tie (stage
+    [skel]: identical reference chains, statement by statement, on every generated change
+    set), not a proof; ModifyColumn / ModifyIndex / ModifyForeignKey / ModifyCheck /
+    primary-key changes and the schema-level statements are covered by the oracle stage
+    [plan] only.  Two statement forms do not qualify and are excluded by [change_ok]:
+    RenameObject, and index statements of a table value without a Schema (exhibited in
+    [C16_skeleton_unqualified_forms], both reproduced on the Go code: known findings). *)
+Theorem C16_skeleton_partial :
+  forall (pg : bool) (cs : list RefSkeleton.change), Forall change_ok cs ->
+  forall s r, In s (plan_skel pg cs) -> In r (s_refs s) ->
+  ref_chain (Some []) r = ref_names r /\
+  (forall q, q <> [] -> ref_chain (Some q) r = q :: ref_names r) /\
+  ref_chain None r = opt_name (ref_own r) ++ ref_names r.
+Proof. exact skeleton_chains. Qed.
+
+Theorem C16_skeleton_unqualified_forms :
+  (exists cs s r, In s (plan_skel true cs) /\ In r (s_refs s) /\ ref_chain (Some qq) r = [e1]) /\
+  (exists cs s r, In s (plan_skel true cs) /\ In r (s_refs s) /\ ref_chain (Some qq) r = [ii]).
+Proof. exact skeleton_unqualified_forms. Qed.
+
 (** * 3. CheckChangesScope *)
 
 (** Full statement (the property): for every qualifier, mode and change set in which every
@@ -126,6 +157,8 @@ Print Assumptions C16_builder_schema_kept.
 Print Assumptions C16_builder_requalify.
 Print Assumptions C16_builder_agnostic.
 Print Assumptions C16_builder_pg.
+Print Assumptions C16_skeleton_partial.
+Print Assumptions C16_skeleton_unqualified_forms.
 Print Assumptions C16_scope_refuted.
 Print Assumptions C16_scope_code.
 Print Assumptions C16_scope_except.
@@ -187,4 +220,24 @@ Example ex_scope_code : CheckChangesScope (Some s1) 1 [CModifySchema (Some s2)] 
 Proof. vm_compute. reflexivity. Qed.
 
 Example ex_scope_no_panic : CheckChangesScope None 1 [CModifySchema None] = SPanic.
+Proof. vm_compute. reflexivity. Qed.
+
+(* C16_skeleton_partial: a change set of the accepted class with references of every kind *)
+Example ex_skeleton :
+  let t := mkTab (mkObj (Some m_) t_) [mkCol c_ (Some (Some m_, [101])) true] [mkIdx [105] [c_] false true]
+                 [mkFk [c_] (mkObj (Some m_) [117])] true in
+  Forall change_ok [RefSkeleton.AddTable t] /\
+  plan_chains true (Some q_) [RefSkeleton.AddTable t] =
+    [ (false, h_create_table, [[q_; t_]; [q_; [101]]; [q_; [117]]]);
+      (true, h_drop_table, [[q_; t_]]);
+      (false, h_create_index, [[q_; t_]]);
+      (true, h_drop_index, [[q_; [105]]]);
+      (false, h_comment_on, [[q_; t_]]); (true, h_comment_on, [[q_; t_]]);
+      (false, h_comment_on, [[q_; t_; c_]]); (true, h_comment_on, [[q_; t_; c_]]);
+      (false, h_comment_on, [[q_; [105]]]); (true, h_comment_on, [[q_; [105]]]) ].
+Proof. split; [repeat constructor; discriminate|vm_compute; reflexivity]. Qed.
+
+Example ex_skeleton_unqualified :
+  plan_chains true (Some q_) [RefSkeleton.RenameObject e1 e2] =
+    [ (false, h_alter_type, [[e1]; [e2]]); (true, h_alter_type, [[e2]; [e1]]) ].
 Proof. vm_compute. reflexivity. Qed.
